@@ -46,6 +46,7 @@ func (s *StatRec) Add(ctx context.Context, name string, inc float64, lv ...strin
 func (s *StatRec) Set(_ context.Context, name string, abs float64, lv ...string) {
 	s.mu.Lock()
 	s.set[name+"|"+labelName(lv)] = abs
+	s.set["#"+name+"|"+labelName(lv)]++ // number of reports
 	s.mu.Unlock()
 }
 
@@ -55,6 +56,14 @@ func (s *StatRec) Total(metric, name string) int {
 	defer s.mu.Unlock()
 
 	return int(s.add[metric+"|"+name])
+}
+
+// Gauge returns the last value of an absolute metric and how many times it was reported.
+func (s *StatRec) Gauge(metric, name string) (int, int) {
+	s.mu.Lock()
+	defer s.mu.Unlock()
+
+	return int(s.set[metric+"|"+name]), int(s.set["#"+metric+"|"+name])
 }
 
 // Snapshot copies all incremental totals.
